@@ -128,7 +128,8 @@ Definition law_of (p : list tree) : option (list (Z * Q)) :=
     else None
   | [A 13; A n; A _; A _; A ck; A cn; A cd]
   | [A 8; A n; A ck; A cn; A cd] =>
-    let c := if ck =? 0 then default_close (Z.to_nat n) else q_of cn cd in
+    (* even construction modes take the default close probability, odd ones the explicit one *)
+    let c := if Z.even ck then default_close (Z.to_nat n) else q_of cn cd in
     Some (tally Z.eqb (dmap (fun o => match o with None => 0 | Some i => Z.of_nat i + 1 end)
                             (gene_gen c (uniform (seq 0 (Z.to_nat n))))))
   | _ => None
